@@ -9,8 +9,8 @@ from __future__ import annotations
 import ast
 from typing import Dict, List, Optional, Set, Tuple
 
-from ..cfg import CFG, EXIT
-from ..exprnorm import Poly, Rat, norm_test, normalize
+from ..cfg import CFG, EXIT, path_conditions
+from ..exprnorm import conj_test, Poly, Rat, norm_test, normalize
 from ..report import Run
 from ..src import (AnalysisError, ClassInfo, FuncInfo, Program, attr_chain, call_name, stmt_key,
                    walk_no_nested)
@@ -587,19 +587,31 @@ def _same_walk(prog: Program, run: Run) -> None:
                               f"iterates `{ast.unparse(l.iter)}` instead of codec.parameters: "
                               "the two directions do not visit the parameters in the same order",
                               f"{f.module.rel}:{l.lineno}", stmt_key(l))
-    tests = [norm_test(x.test) for x in walk_no_nested(enc.node) if isinstance(x, ast.If) and
-             "LengthKeyParameter" in ast.unparse(x.test)]
+    # the conditions under which the three kinds of encoding calls are reached (path
+    # conditions from the CFG: independent of `continue` vs nesting, De Morgan, `is` vs id())
     want_pos = norm_test(ast.parse("isinstance(param, (LengthKeyParameter, TableKeyParameter))",
                                    mode="eval").body)
     want_neg = norm_test(ast.parse("not isinstance(param, (LengthKeyParameter, "
                                    "TableKeyParameter))", mode="eval").body)
-    if sorted(tests) == sorted([want_pos, want_neg]):
+    ecfg = CFG(enc.node)
+    seen_calls = {}
+    for x in walk_no_nested(enc.node):
+        if isinstance(x, ast.Call) and isinstance(x.func, ast.Attribute) and x.func.attr in (
+                "encode_placeholder_into_pdu", "encode_into_pdu", "encode_value_into_pdu") and \
+                isinstance(x.func.value, ast.Name):
+            conds = [(t, p_) for t, p_ in ecfg.branch_conditions(ecfg.node_of(_stmt(enc.node, x)))
+                     if "LengthKeyParameter" in ast.unparse(t)]
+            seen_calls[x.func.attr] = conj_test(conds)
+    want = {"encode_placeholder_into_pdu": want_pos, "encode_into_pdu": want_neg,
+            "encode_value_into_pdu": want_pos}
+    if seen_calls == want:
         run.ok(R, enc.qual, "the first pass defers exactly the key parameters the second pass "
                "encodes", enc.loc)
     else:
         run.violation(R, enc.qual, "key-pass-mismatch",
-                      f"the key-parameter tests of the two passes are {tests}: a key parameter "
-                      "is either encoded twice or not at all", enc.loc)
+                      f"placeholder / value / key encoding are reached under {seen_calls}, "
+                      f"expected {want}: a key parameter is either encoded twice or not at all",
+                      enc.loc)
     # every parameter of the decoder loop is decoded and stored under its short name
     l = [l for l in walk_no_nested(dec.node) if isinstance(l, ast.For)][0]
     s = ast.unparse(l)
@@ -616,48 +628,54 @@ def _terminator(prog: Program, run: Run) -> None:
     R = "C01.R7"
     e = prog.func("MinMaxLengthType.encode_into_pdu")
     d = prog.func("MinMaxLengthType.decode_from_pdu")
-    # encoder: terminator omitted iff (is_end_of_pdu or data_length == max_length)
-    omit = [x for x in walk_no_nested(e.node) if isinstance(x, ast.If) and "is_end_of_pdu" in
-            ast.unparse(x.test) and "max_length" in ast.unparse(x.test)]
-    if not omit:
+    # encoder: the terminator is emitted under exactly
+    #   not (is_end_of_pdu or data_length == max_length)
+    # (path condition of the emplace_bytes call; independent of how the branches are written)
+    ecfg = CFG(e.node)
+    emits = [x for x in walk_no_nested(e.node) if isinstance(x, ast.Call) and
+             call_name(x) == "emplace_bytes"]
+    dl = [x for x in walk_no_nested(e.node) if isinstance(x, ast.Assign) and ast.unparse(
+        x.targets[0]) == "data_length"]
+    in_bytes = bool(dl) and ast.unparse(dl[0].value) == "len(raw_value)"
+    want = norm_test(ast.parse("not (encode_state.is_end_of_pdu or data_length == self.max_length)",
+                               mode="eval").body)
+    if not emits:
         run.violation(R, "MinMaxLengthType.encode_into_pdu", "terminator-condition",
-                      "the terminator is not omitted exactly at the end of the PDU or at "
-                      "MAX-LENGTH", e.loc)
+                      "the terminator is never emitted", e.loc)
     else:
-        t = omit[0]
-        want = norm_test(ast.parse("encode_state.is_end_of_pdu or data_length == self.max_length",
-                                   mode="eval").body)
-        emits_in_else = any(isinstance(x, ast.Call) and call_name(x) == "emplace_bytes"
-                            for s in t.orelse for x in ast.walk(s))
-        dl = [x for x in walk_no_nested(e.node) if isinstance(x, ast.Assign) and ast.unparse(
-            x.targets[0]) == "data_length"]
-        in_bytes = dl and ast.unparse(dl[0].value) == "len(raw_value)"
-        if norm_test(t.test) == want and emits_in_else and in_bytes:
+        got = conj_test(path_conditions(ecfg, ecfg.node_of(_stmt(e.node, emits[0]))))
+        if got == want and in_bytes:
             run.ok(R, "MinMaxLengthType.encode_into_pdu", "terminator omitted iff at the end of "
-                   "the PDU or the encoded byte length equals MAX-LENGTH", f"{e.module.rel}:{t.lineno}")
+                   "the PDU or the encoded byte length equals MAX-LENGTH",
+                   f"{e.module.rel}:{emits[0].lineno}")
         else:
             run.violation(R, "MinMaxLengthType.encode_into_pdu", "terminator-condition",
-                          f"`{ast.unparse(t.test)}`: the terminator must be omitted iff "
-                          "is_end_of_pdu or the *encoded byte length* equals MAX-LENGTH (the "
-                          "decoder decides by consumed bytes)", f"{e.module.rel}:{t.lineno}",
-                          ast.unparse(t.test))
-    # decoder: terminator skipped iff not at end of PDU and consumed != max_length
-    skip = [x for x in walk_no_nested(d.node) if isinstance(x, ast.If) and any(
-        isinstance(s, ast.AugAssign) and "len(termination_seq)" in ast.unparse(s)
-        for s in x.body)]
+                          f"the terminator is emitted under `{got}`"
+                          + ("" if in_bytes else " with data_length not being len(raw_value)")
+                          + ": it must be omitted iff is_end_of_pdu or the *encoded byte "
+                          "length* equals MAX-LENGTH (the decoder decides by consumed bytes)",
+                          f"{e.module.rel}:{emits[0].lineno}", got)
+    # decoder: terminator skipped iff termination != END-OF-PDU, not at end of PDU and
+    # consumed != max_length
+    dcfg = CFG(d.node)
+    skip = [x for x in walk_no_nested(d.node) if isinstance(x, ast.AugAssign) and
+            "len(termination_seq)" in ast.unparse(x.value) and "cursor_byte_position" in
+            ast.unparse(x.target)]
     if skip:
         want = norm_test(ast.parse(
+            "self.termination != Termination.END_OF_PDU and "
             "decode_state.cursor_byte_position != len(decode_state.coded_message) and "
             "decode_state.cursor_byte_position - orig_cursor_pos != self.max_length",
             mode="eval").body)
-        if norm_test(skip[0].test) == want:
+        got = conj_test(path_conditions(dcfg, dcfg.node_of(skip[0])))
+        if got == want:
             run.ok(R, "MinMaxLengthType.decode_from_pdu", "terminator skipped iff not at the end "
                    "of the PDU and fewer than MAX-LENGTH bytes were consumed",
                    f"{d.module.rel}:{skip[0].lineno}")
         else:
             run.violation(R, "MinMaxLengthType.decode_from_pdu", "terminator-skip-condition",
-                          f"`{ast.unparse(skip[0].test)}` does not mirror the encoder's rule",
-                          f"{d.module.rel}:{skip[0].lineno}")
+                          f"the terminator is skipped under `{got}`, which does not mirror the "
+                          "encoder's rule", f"{d.module.rel}:{skip[0].lineno}")
     else:
         run.violation(R, "MinMaxLengthType.decode_from_pdu", "terminator-not-skipped",
                       "the terminator is never skipped after the value", d.loc)
